@@ -51,6 +51,9 @@ class ContCheck(vlib.PropertyCheck):
     family = 'cont'
     harness = 'cont.c'
     case_timeout = 300
+    # automatic variables that are read before being written get a non-zero, non-pointer pattern
+    # instead of whatever the stack held: "stores an uninitialised pointer" becomes a deterministic fault
+    impl_kwargs = dict(cflags=['-ftrivial-auto-var-init=pattern'])
 
     def split(self, case, out):
         # level B (structure dump after '|') is not compared in stage 1
